@@ -170,7 +170,14 @@ theorem started_reset_run (c : Cfg) (ar aq : Nat) (s : S) (h : Inv c ar aq s) (h
     rw [if_neg (by simp [g1]), if_neg (by simp [hnw g g5])]
     simp only [g2, g3, g4, if_true]
     rw [if_pos (by simp [processDone, g5])]
-  rcases hwhere hur with hp | hp
+  have hwhere2 : s.phase = .UpRecvData ∨ s.phase = .UpRecvTrailer := by
+    rcases hwhere hur with hp | hp | hp
+    · exact Or.inl hp
+    · exact Or.inr hp
+    · -- [proxy7] at UpFilter nothing was sent yet
+      have := (h.k15 hcl hupp).2.2.2.2.1
+      rw [hrst, hp.1] at this; cases this
+  rcases hwhere2 with hp | hp
   · -- data phase
     by_cases hd : r.hasData = true
     · have e1 : work c s = finishPhase c s := by
